@@ -294,10 +294,17 @@ def configs(tier):
                             'pat_desc': 'index', 'models': ['fixed', 'fitted']})
     # E out-of-bag evaluation (boot_testset)
     for routine in ('bootstrap_testset', 'bootstrap_testset_pattern', 'bootstrap_testset_rdm'):
-        for (nr, nc) in [(3, 5)] + ([(3, 6), (4, 6)] if big else []):
+        # (at least 6 conditions: 3 left out for the test set and 3 distinct ones in the training sample)
+        for (nr, nc) in [(3, 6)] + ([(3, 5), (4, 6)] if big else []):
             for method in (METHODS if big else ['cosine']):
                 out.append({'routine': routine, 'n_rdm': nr, 'n_cond': nc, 'method': method, 'N': 2,
                             'rdm_desc': 'index', 'pat_desc': 'index', 'models': ['fixed', 'fitted']})
+    # default numbers of folds (k_pattern = k_rdm = None)
+    out.append({'routine': 'bootstrap_crossval', 'n_rdm': 4, 'n_cond': 7, 'method': 'cosine', 'boot_type': 'both',
+                'k_pattern': None, 'k_rdm': None, 'n_cv': 1, 'N': 2, 'rdm_desc': 'index', 'pat_desc': 'index',
+                'models': ['fixed', 'fitted']})
+    out.append({'routine': 'eval_dual_bootstrap', 'n_rdm': 4, 'n_cond': 7, 'method': 'cosine', 'k_pattern': None,
+                'k_rdm': None, 'n_cv': 1, 'N': 2, 'rdm_desc': 'index', 'pat_desc': 'index', 'models': ['fixed', 'fitted']})
     # grouped descriptors for the cross-validated bootstrap (dof / grouping)
     out.append({'routine': 'bootstrap_crossval', 'n_rdm': 4, 'n_cond': 6, 'method': 'cosine', 'boot_type': 'both',
                 'k_pattern': 2, 'k_rdm': 1, 'n_cv': 1, 'N': 2, 'rdm_desc': 'grp', 'pat_desc': 'index',
